@@ -2347,10 +2347,11 @@ pub fn run(prop: &str) {
         std::thread::spawn(move || {
             let _ = tx.send(run_real(&c2));
         });
-        let real = match rx.recv_timeout(std::time::Duration::from_millis(CASE_TIMEOUT_MS)) {
+        let cap_ms = std::env::var("VERIF_REPLAY_CAP_S").ok().and_then(|s| s.parse::<u64>().ok()).map(|s| s * 1000).unwrap_or(CASE_TIMEOUT_MS);
+        let real = match rx.recv_timeout(std::time::Duration::from_millis(cap_ms)) {
             Ok(r) => r,
             Err(_) => {
-                println!("implementation: the render did not return within {} s", CASE_TIMEOUT_MS / 1000);
+                println!("implementation: the render did not return within {} s of wall time (VERIF_REPLAY_CAP_S to wait longer)", cap_ms / 1000);
                 std::process::exit(0);
             }
         };
